@@ -2,8 +2,9 @@ import RichModel.Lemmas.ThemeConfig
 /-!
 Totality of the modelled `configparser` and of `Theme.from_file` (property C20): the model answers
 every text (it is `unmodelled` only for option names containing U+03A3 while names are lower-cased and for
-`%(name)s` references while interpolation is on), and `from_file` ends in a theme, one of the six
-`configparser` exceptions, or what `Style.parse` raised.
+`%(name)s` references while interpolation is on), and `from_file` ends in a theme, one of the
+`configparser` exceptions of the model (five with interpolation off, the case `C20.from_file_total` states; the sixth
+is the interpolation error), or what `Style.parse` raised.
 -/
 namespace RichModel.Cfg
 open RichModel.Theme
